@@ -274,7 +274,10 @@ class Simulation:
                 heap_size=self._event_heap.size(),
             )
         else:
-            # Resuming from pause
+            # Resuming from pause: the loop below runs actively again (control.resume()/step()
+            # clear the flag themselves; a direct run() on a paused simulation must do the same,
+            # otherwise the run proceeds while still being reported as paused)
+            self._is_paused = False
             logger.info(
                 "Simulation resuming at %r with %d event(s) in heap",
                 self._current_time,
